@@ -245,7 +245,7 @@ def _impl_intlaw(case):
 
 def _raw_graph(case):
     import networkx as nx
-    G = nx.DiGraph()
+    G = nx.Graph() if case["raw"].get("undirected") else nx.DiGraph()
     for u, a in case["raw"]["nodes"]:
         G.add_node(u, **a)
     for u, v, a in case["raw"]["edges"]:
@@ -272,8 +272,23 @@ def _impl_raw(case):
     r_sorted = sorted(ri, key=lambda u: ri[u])
     ok = (set(sp_nodes) == set(si) and set(rx_nodes) == set(ri) and list(sn_sorted) == s_sorted and list(sl2) == list(sl) and si2 == si
           and sorted(si.values()) == list(range(len(si))) and sorted(ri.values()) == list(range(len(ri))))
+    k = case["raw"].get("scale", 1)      # fractional coefficients (multiples of 1/scale): the matrices are handed over scaled, exactly
     return [0, _one([pos[u] for u in s_sorted]) if ok else ["INCONSISTENT"], [pos[u] for u in r_sorted],
-            _one(list(sl), list(sp), list(sp2)), _one(list(rl), list(rx), list(rx2)), _imat(Sm), _imat(Sp), _imat(S)]
+            _one(list(sl), list(sp), list(sp2)), _one(list(rl), list(rx), list(rx2)), _smat(Sm, k), _smat(Sp, k), _smat(S, k)]
+
+
+def _smat(M, k):
+    """k * M as exact integers (every entry of M is a float: exact rational arithmetic; a non-integral product is an error marker)"""
+    from fractions import Fraction
+    import numpy as np
+    out = []
+    for row in np.asarray(M, dtype=float).tolist():
+        r = []
+        for x in row:
+            f = Fraction(x) * k
+            r.append(int(f) if f.denominator == 1 else ["NONINTEGRAL", repr(x)])
+        out.append(r)
+    return out
 
 
 def _coq_case_raw(case):
@@ -295,8 +310,17 @@ def _coq_case_raw(case):
         ro = a.get("role")
         edges.append("(REdge %s %s %s %s)" % (
             cN(pos[u]), cN(pos[v]), "(Some Reactant)" if ro == "reactant" else "(Some Product)" if ro == "product" else "None",
-            "(Some %s)" % cZ(int(a["stoich"])) if "stoich" in a else "None"))
-    return "run_raw (RG %s %s)" % (clist(nodes), clist(edges))
+            "(Some %s)" % cZ(_scaled(a["stoich"], case["raw"].get("scale", 1))) if "stoich" in a else "None"))
+    # undirected: the edges in the orientation networkx stores (and iterates) them; _as_bipartite orients each by its role
+    return "%s (RG %s %s)" % ("run_raw_und" if case["raw"].get("undirected") else "run_raw", clist(nodes), clist(edges))
+
+
+def _scaled(c, k):
+    """coefficient c (int or float, a multiple of 1/k) times k, exactly"""
+    from fractions import Fraction
+    f = Fraction(c) * k
+    assert f.denominator == 1, (c, k)
+    return int(f)
 
 
 def _oracle_raw(case):
@@ -311,6 +335,7 @@ def _oracle_raw(case):
 
     def rl(a):
         return a.get("kind") == "reaction" or ("bipartite" in a and a["bipartite"] == 1)
+    from fractions import Fraction
     attrs = dict(G.nodes(data=True))
     if any(sl(a) and rl(a) for a in attrs.values()):
         return []                      # contradictory attributes: outside the documented conventions, correspondence only
@@ -328,13 +353,14 @@ def _oracle_raw(case):
         s_, r_ = (u, v) if (sl(attrs[u]) and rl(attrs[v])) else (v, u) if (sl(attrs[v]) and rl(attrs[u])) else (None, None)
         if s_ is None:
             continue
-        c = int(a.get("stoich", 1))
+        c = Fraction(a.get("stoich", 1))
         if a.get("role") == "product":
             want[(s_, r_)] = want.get((s_, r_), 0) + c
         elif a.get("role") == "reactant":
             want[(s_, r_)] = want.get((s_, r_), 0) - c
     fails = []
-    Si = _imat(S)
+    import numpy as np
+    Si = [[Fraction(x) for x in row] for row in np.asarray(S, dtype=float).tolist()]
     if sorted(sp) != sorted(lab(u) for u in species) or len(rx) != len(rxns) or len(Si) != len(species) or any(len(r) != len(rxns) for r in Si):
         return [dict(clause="S-shape", detail="rows %r / %d columns; the graph has species %r and %d reaction nodes" % (list(sp), len(rx), sorted(map(lab, species)), len(rxns)))]
     # columns as multisets of (reaction label, {species label: entry}): species labels are unique by construction of the cases
@@ -960,11 +986,13 @@ def distribution(cases, obss):
     views = {}
     hist = dict(cases=0, states=0, edits={})
     il = dict(cases={}, laws=0, fallback=0, zero=0, limit_queries=0)
-    rawd = dict(cases=0, answers={}, nodes_without_kind=0, nodes_without_flag=0, nodes_without_label=0, junk_nodes=0, edges_without_stoich=0,
+    rawd = dict(cases=0, undirected=0, fractional=0, answers={}, nodes_without_kind=0, nodes_without_flag=0, nodes_without_label=0, junk_nodes=0, edges_without_stoich=0,
                 edges_without_role=0, foreign_values=0)
     for c, o in zip(cases, obss):
         if c.get("raw"):
             rawd["cases"] += 1
+            rawd["undirected"] += bool(c["raw"].get("undirected"))
+            rawd["fractional"] += bool(c["raw"].get("scale"))
             key = str(o[0]) if isinstance(o, list) and o else "?"
             rawd["answers"][key] = rawd["answers"].get(key, 0) + 1
             for _, a in c["raw"]["nodes"]:
@@ -1388,7 +1416,17 @@ def gen_raw(tier, rng, nets):
                 if rnodes:
                     edges.append([nodes[-1][0], rng.choice(rnodes), {"role": "reactant", "stoich": 2}])
         rng.shuffle(edges)
-        out.append(dict(raw=dict(nodes=nodes, edges=edges), kind="raw-attributes", rxns=[], name=(c.get("name") or c.get("kind", "")) + "/raw"))
+        raw = dict(nodes=nodes, edges=edges)
+        if rng.random() < 0.25:
+            # fractional coefficients (1/2 O2, 3/2, 1/4 ...), the usual way to write combustion steps on a bipartite graph: every arc gets
+            # an explicit coefficient that is a multiple of 1/4; the model works on the coefficients times 4
+            raw["scale"] = 4
+            for e_ in edges:
+                e_[2]["stoich"] = rng.choice([0.5, 1.5, 0.25, 2.5, 1, 2, 0.75, 1.0, 3])
+        pairs = [frozenset((u, v)) for u, v, _ in edges]
+        if len(set(pairs)) == len(pairs) and rng.random() < 0.35:
+            raw["undirected"] = True        # an nx.Graph with the same attributes (one edge per node pair: no species on both sides of a reaction)
+        out.append(dict(raw=raw, kind="raw-attributes", rxns=[], name=(c.get("name") or c.get("kind", "")) + "/raw"))
     # degenerate / contradictory
     out.append(dict(raw=dict(nodes=[["A", {}]], edges=[]), kind="raw-attributes", rxns=[]))
     out.append(dict(raw=dict(nodes=[["A", {"kind": "species"}]], edges=[]), kind="raw-attributes", rxns=[]))
